@@ -30,6 +30,8 @@ from ..tlc import run_tlc, TLCFailure
 # TLC runs are subprocesses: independent ones are started side by side (at most three at a time, heap 3g each)
 # while the main thread drives the real code; results are accounted for in the main thread.
 _POOL = ThreadPoolExecutor(max_workers=3)
+# the recursive table loops of the specs nest deeply (one level per row pair): give TLC's worker threads a big stack
+JVM = {"JAVA_TOOL_OPTIONS": "-Xss64m"}
 
 # ================================================================================================
 # part 1: grid game
@@ -619,7 +621,7 @@ def game_pipeline(ctx, recs, *, selftest_expect=None, tag=""):
                 continue
             expanded.append(n)
             mg = r.get("margs", {}).get(str(n)) or [[] for _ in rows]
-            traces.append({"lid": li, "kind": "expand", "s": n, "expanded": [],
+            traces.append({"lid": li, "kind": "expand", "s": n, "expanded": [], "hist": 0,
                            "marg": [[[{"c": e["c"], "q": quant(e["p"])} for e in m] for m in mm] for mm in mg],
                            "rows": [[{"n": o["n"], "q": quant(o["p"]), "r": [qrew(x) for x in o["r"]],
                                       "z": quant(o.get("z", o["p"]))} for o in row]
@@ -629,7 +631,7 @@ def game_pipeline(ctx, recs, *, selftest_expect=None, tag=""):
         for key, rows in hist["requery"].items():
             n = next(x for x in r["states"] if str(x) == key)
             mg = hist["requery_margs"].get(key) or [[] for _ in rows]
-            traces.append({"lid": li, "kind": "expand", "s": n, "expanded": [],
+            traces.append({"lid": li, "kind": "expand", "s": n, "expanded": [], "hist": 1,
                            "marg": [[[{"c": e["c"], "q": quant(e["p"])} for e in m] for m in mm] for mm in mg],
                            "rows": [[{"n": o["n"], "q": quant(o["p"]), "r": [qrew(x) for x in o["r"]],
                                       "z": quant(o.get("z", o["p"]))} for o in row] for row in rows]})
@@ -645,9 +647,9 @@ def game_pipeline(ctx, recs, *, selftest_expect=None, tag=""):
 
     # ---- MC: the reference machine over the same layouts;  B: trace validation of the recorded behaviour
     f_mc = _POOL.submit(run_tlc, ctx.workdir / f"game_mc{tag}", "C18_GridGame", GAME_CFG, files={"batch.json": batch},
-                        env={"BATCH_FILE": "batch.json"}, coverage=(ctx.tier == "thorough"), timeout=1500, heap="3g")
+                        env={"BATCH_FILE": "batch.json", **JVM}, coverage=(ctx.tier == "thorough"), timeout=1500, heap="3g")
     f_tr = _POOL.submit(run_tlc, ctx.workdir / f"game_trace{tag}", "C18_GridGameTrace", TRACE_CFG, files={"batch.json": batch},
-                        env={"BATCH_FILE": "batch.json"}, timeout=1500, heap="3g")
+                        env={"BATCH_FILE": "batch.json", **JVM}, timeout=1500, heap="3g")
     res = f_mc.result()
     ctx.add_tlc(res, "mc: reference machine of next_state_dist over all reachable states x 25 joint actions")
     bad = [v for v in res.violated if v in GAME_INVS]
@@ -1493,12 +1495,12 @@ def factor_nontrivial(case):
 def factor_batch_tlc(ctx, cases, tag=""):
     batch = [{"tabs": c["tabs"], "prog": c["prog"], "top": c["top"], "exps": c.get("exps") or [0] * len(c["tabs"])} for c in cases]
     return run_tlc(ctx.workdir / f"factor_batch{tag}", "C18_Factor", FACTOR_CFG, files={"batch.json": batch},
-                   env={"BATCH_FILE": "batch.json", "MODE": "batch", "EXH": "none"}, coverage=(ctx.tier == "thorough"), heap="3g")
+                   env={"BATCH_FILE": "batch.json", "MODE": "batch", "EXH": "none", **JVM}, coverage=(ctx.tier == "thorough"), heap="3g")
 
 
 def factor_exh_tlc(ctx, family):
     return run_tlc(ctx.workdir / f"factor_exh_{family}", "C18_Factor", FACTOR_CFG,
-                   env={"BATCH_FILE": "none", "MODE": "exh", "EXH": family}, timeout=3000, heap="3g")
+                   env={"BATCH_FILE": "none", "MODE": "exh", "EXH": family, **JVM}, timeout=3000, heap="3g")
 
 
 def run_factor_batch(ctx, cases, *, mutate_expect=None, real=None, res=None):
@@ -1602,7 +1604,7 @@ def replay(ctx, case):
                 ins.setdefault("e", 0)
             batch = [{"tabs": c["tabs"], "prog": c["prog"], "top": c["top"], "exps": c.get("exps") or [0] * len(c["tabs"])}]
             res = run_tlc(ctx.workdir / "factor_replay", "C18_Factor", FACTOR_CFG, files={"batch.json": batch},
-                          env={"BATCH_FILE": "batch.json", "MODE": "batch", "EXH": "none"})
+                          env={"BATCH_FILE": "batch.json", "MODE": "batch", "EXH": "none", **JVM})
             ctx.add_tlc(res, "replay of one factor case")
             steps = {r["step"]: r for r in res.records}
             judge_factor_case(ctx, c, steps, paths, label="replay")
